@@ -613,7 +613,13 @@ class RangeDimension(Dimension):
         if self.has_link:
             # unlick object and set ticks
             self.remove_link()
-        self._h5group.write_data("ticks", ticks)
+        # ticks are positions (doubles): do not let the first value decide
+        # the stored type ([0, 3.75] was stored as integers 0 and 3)
+        ticks = np.asarray(ticks, dtype=np.float64)
+        if (self._h5group.has_data("ticks") and
+                self._h5group.get_dataset("ticks").dtype != np.float64):
+            del self._h5group["ticks"]
+        self._h5group.write_data("ticks", ticks, DataType.Double)
 
     @property
     def label(self):
